@@ -513,5 +513,81 @@ theorem compact_gc_safe (c : Carrier) (fl : CompactFlags) (hm : fl.mergeInsteadO
               exact mem_vals.mpr ((hcont _).mpr (Or.inl (mem_keptOf.mpr ⟨hTmem, hdT⟩)))
             · exact Or.inl (mem_vals.mpr ((hcont _).mpr (Or.inr h)))
 
+/-! ### the selection rule: oldest-first prefix of the candidates -/
+
+theorem insertBy_sorted {α : Type} (key : α → Nat) (x : α) {l : List α}
+    (h : l.Pairwise (fun a b => key a ≤ key b)) : (insertBy key x l).Pairwise (fun a b => key a ≤ key b) := by
+  induction l with
+  | nil => simp [insertBy]
+  | cons y l ih =>
+    have ⟨hy, hl⟩ := List.pairwise_cons.mp h
+    simp only [insertBy]
+    split
+    · rename_i hlt
+      apply List.pairwise_cons.mpr
+      refine ⟨?_, ih hl⟩
+      intro z hz
+      rcases (mem_insertBy key x z l).mp hz with h1 | h1
+      · rw [h1]; omega
+      · exact hy z h1
+    · rename_i hge
+      apply List.pairwise_cons.mpr
+      refine ⟨?_, h⟩
+      intro z hz
+      cases hz with
+      | head => omega
+      | tail _ hz' => have := hy z hz'; omega
+
+theorem sortBy_sorted {α : Type} (key : α → Nat) (l : List α) :
+    (sortBy key l).Pairwise (fun a b => key a ≤ key b) := by
+  induction l with
+  | nil => exact List.Pairwise.nil
+  | cons x l ih => exact insertBy_sorted key x ih
+
+/-- the candidates of a pass: segments below the size target -/
+def candidates (cfg : CompactCfg) (m : Manifest) : List SegInfo := m.segments.filter (fun s => s.size < cfg.target)
+
+/-- **the documented selection rule**: a listed segment that a pass does not select is either not
+    a candidate (size ≥ target) or at least as new as every selected segment (it was cut off by
+    `max_segments_per_compaction`): a pass takes an oldest-first prefix of the candidates -/
+theorem unselected_is_noncandidate_or_newer (cfg : CompactCfg) (m : Manifest) {s : SegInfo}
+    (hs : s ∈ m.segments) (hns : s ∉ selectSegments cfg m) :
+    cfg.target ≤ s.size ∨ ∀ t ∈ selectSegments cfg m, t.id ≤ s.id := by
+  by_cases hc : s.size < cfg.target
+  · right
+    unfold selectSegments at hns ⊢
+    generalize hL : sortBy (·.id) (m.segments.filter (fun s => s.size < cfg.target)) = L at hns ⊢
+    have hsL : s ∈ L := by
+      rw [← hL, mem_sortBy]
+      exact List.mem_filter.mpr ⟨hs, by simpa using hc⟩
+    have hsorted : L.Pairwise (fun a b => a.id ≤ b.id) := by rw [← hL]; exact sortBy_sorted _ _
+    have hsplit := List.take_append_drop cfg.maxPer L
+    rw [← hsplit] at hsL hsorted
+    have hdrop : s ∈ L.drop cfg.maxPer := by
+      rcases List.mem_append.mp hsL with h | h
+      · exact absurd h hns
+      · exact h
+    intro t ht
+    exact (List.pairwise_append.mp hsorted).2.2 t ht s hdrop
+  · left; omega
+
+/-- hence whatever survives outside a pass lives in a non-candidate segment or in a segment
+    strictly newer than every compacted one -/
+theorem outside_pass_is_noncandidate_or_newer {st : Store} {cfg : CompactCfg} {m : Manifest} {q : Delta}
+    (hq : q ∈ segDeltas st (removeIds m ((selectSegments cfg m).map (·.id)))) :
+    ∃ s ∈ m.segments, (cfg.target ≤ s.size ∨ ∀ t ∈ selectSegments cfg m, t.id < s.id) ∧
+      ∃ ds, NMap.get st (segName s.id) = some (.segment ds) ∧ q ∈ ds := by
+  obtain ⟨s, hs, ds, hg, hd⟩ := mem_segDeltas.mp hq
+  obtain ⟨hsm, hid⟩ := mem_removeIds.mp hs
+  have hns : s ∉ selectSegments cfg m := fun h => hid (List.mem_map.mpr ⟨s, h, rfl⟩)
+  refine ⟨s, hsm, ?_, ds, hg, hd⟩
+  rcases unselected_is_noncandidate_or_newer cfg m hsm hns with h | h
+  · exact Or.inl h
+  · right
+    intro t ht
+    have hle := h t ht
+    have hne : t.id ≠ s.id := fun he => hid (List.mem_map.mpr ⟨t, ht, he⟩)
+    omega
+
 end Stream
 end RedisVerif
